@@ -1098,7 +1098,7 @@ class SheppLoganDataset(Dataset):
 
         # Outer slices might be zeros. These will cause nans/infs. Add random normal noise.
         if np.allclose(image, np.zeros(1)):
-            image += np.random.randn(*image.shape) * sys.float_info.epsilon
+            image += np.random.RandomState(self.seed[idx]).randn(*image.shape) * sys.float_info.epsilon
 
         kspace = self.fft(image)
 
